@@ -238,6 +238,69 @@ def run(chk):
                 if bytes(rd[2]) != want:
                     chk.violation("read_target(%r) delivered %r; the first entry in pre-order is %r" % (name, bytes(rd[2]), want), full)
         clientrun.check_correspondence(chk, s, impl, model, "client workflow (validate, read_target)")
+    # (3b) the same name listed by two delegated roles with different contents, of which only the LATER one in
+    # pre-order is delegated the name (the repository is valid: the name is reachable through that role): the entry
+    # a target is served from must be the authorised role's, whatever an earlier, unauthorised role lists. The
+    # unauthorised role is an earlier sibling, or a role below an earlier sibling.
+    scens, infos = [], []
+    for shape in ("sibling", "nested"):
+        for cs in (False, True):
+            for served in ("authorised", "unauthorised"):
+                for name in ("beta/app.bin", "x/../beta/app.bin"):
+                    s = scen.Scen()
+                    un = s.targets(version=1, targets=[{"name": name, "content": "from-unauthorised"}], sigs=scen.valid([7]))
+                    au = s.targets(version=1, targets=[{"name": name, "content": "from-authorised"}], sigs=scen.valid([8]))
+                    deleg = [("beta", 1, au)]
+                    metas = {}
+                    if shape == "sibling":
+                        first = {"name": "alpha", "keyids": [7], "threshold": 1, "paths": ["alpha/*"]}
+                        deleg.insert(0, ("alpha", 1, un))
+                    else:
+                        mid = s.targets(version=1, targets=[], sigs=scen.valid([7]), delegations={"keys": [7], "roles": [
+                            {"name": "gamma", "keyids": [7], "threshold": 1, "paths": ["alpha/*"]}]})
+                        first = {"name": "alpha", "keyids": [7], "threshold": 1, "paths": ["alpha/*"]}
+                        deleg = [("alpha", 1, mid), ("gamma", 1, un)] + deleg
+                    tgt = s.targets(version=1, targets=[], delegations={"keys": [7, 8], "roles": [
+                        first, {"name": "beta", "keyids": [8], "threshold": 1, "paths": ["beta/*"]}]})
+                    metas["targets.json"] = scen.meta(tgt, 1)
+                    for n, v, d in deleg:
+                        metas[n + ".json"] = scen.meta(d, v)
+                    snap = s.snapshot(version=1, meta=metas)
+                    ts = s.timestamp(version=1, meta={"snapshot.json": scen.meta(snap, 1)})
+                    r = s.root(cs=cs)
+                    files = scen.top_files(cs, ts, snap, 1, tgt, 1, delegated=deleg)
+                    resolved = py_resolve(name)
+                    if cs:
+                        tfs = [{"name": hashlib.sha256(c.encode()).hexdigest() + "." + resolved, "items": [c]}
+                               for c in ("from-authorised", "from-unauthorised")]
+                    else:
+                        tfs = [{"name": resolved, "items": ["from-" + served]}]
+                    s.cycle(r, files, targets_files=tfs, ops=[{"op": "read", "name": name}])
+                    scens.append(s)
+                    infos.append((shape, cs, served, name))
+    results = clientrun.run_scenarios(chk, scens)
+    for s, (shape, cs, served, name), (impl, model, mcase) in zip(scens, infos, results):
+        chk.seen(mcase, True)
+        chk.count("two-listers-" + shape)
+        desc = {"shape": shape, "consistent_snapshot": cs, "file_served": served, "name": name,
+                "implementation": [clientrun.show_cycle(x) for x in impl] if isinstance(impl, list) else impl}
+        full = dict(desc, scenario=s.case())
+        if not isinstance(impl, list) or impl[0][0][0] >= 900:
+            chk.broken("harness failure", full)
+            continue
+        if impl[0][0][0] != 0:
+            chk.broken("a valid repository (the name is reachable through the role delegated its path) was refused: %s" % impl[0][0], full)
+            continue
+        rd = impl[0][3][0] if impl[0][3] else None
+        if rd is not None:
+            delivered = rd[0] == 1 and rd[3] == 1
+            if delivered and bytes(rd[2]) != b"from-authorised":
+                chk.violation("read_target(%r) delivered %r: the entry of a role that is not delegated the name was used "
+                              "(it comes first in pre-order)" % (name, bytes(rd[2])), full)
+            if not delivered and (cs or served == "authorised"):
+                chk.violation("read_target(%r) did not deliver the content listed by the role that is delegated the name: "
+                              "another role's entry was used" % name, full)
+        clientrun.check_correspondence(chk, s, impl, model, "client workflow (two roles list the name)")
     return chk
 
 
